@@ -419,6 +419,25 @@ func (e *Eng) Verify(root, key, val, proof []byte) (ok bool, status string) {
 	return
 }
 
+// PVerify is Tree.ConstructProof(pk) at root followed by Proof.Verify(k, v, vroot) on the returned structure
+// (no encoding in between).
+func (e *Eng) PVerify(root, pk, k, v, vroot []byte) (ok bool, status string) {
+	status = gen.Guard(func() string {
+		t, err := e.tree(root)
+		if err != nil {
+			return "notfound"
+		}
+		_, proof := t.ConstructProof(pk)
+		if proof == nil {
+			return "noproof"
+		}
+		ok = proof.Verify(k, v, vroot)
+		return b01(ok)
+	})
+	e.Out.Op(fmt.Sprintf("pverify %s %s %s %s %s", Hx(root), Hx(pk), Hx(k), Hx(v), Hx(vroot)), status)
+	return
+}
+
 func parseKVs(s string) ([]KV, bool) {
 	if s == "-" {
 		return nil, true
@@ -594,6 +613,19 @@ func (e *Eng) replayLine(f []string) bool {
 			return false
 		}
 		e.TIter(r, s, en, f[4] == "1", f[5] == "1", lim)
+	case "pverify":
+		if !need(6) {
+			return false
+		}
+		var a [5][]byte
+		for i := 0; i < 5; i++ {
+			b, good := unhex(f[i+1])
+			if !good {
+				return false
+			}
+			a[i] = b
+		}
+		e.PVerify(a[0], a[1], a[2], a[3], a[4])
 	case "verify":
 		if !need(5) {
 			return false
